@@ -1,3 +1,134 @@
 import Srctools.Wire
-/-! stub driver (echo) — replaced when the property's model exists. -/
-def main : IO Unit := Wire.main fun j => pure j
+import Srctools.Model.C15
+import Srctools.Model.C15File
+import Srctools.Gen.Vtf
+/-! Driver for the VTF model (C15). One JSON request per line.
+  {"op":"tables"}                                   → formats + codec flags of Gen.Vtf and of the model
+  {"op":"dec","fmt":i,"bytes":[..]}                 → {"px":[..]}            load_<fmt> on a data block
+  {"op":"enc","fmt":i,"px":[..]}                    → {"bytes":[..]}         save_<fmt> on an RGBA array
+  {"op":"mips","w":..,"h":..}                       → {"levels":[[w,h]..],"count":n,"reader":[[w,h]..]}
+  {"op":"scale","filt","sw","sh","w","h","src"}     → {"dst":[..]} | {"err":5}
+  {"op":"index","w","h","x","y"}                    → {"off":n|null}
+  {"op":"keys","mc","fc","flags","minor","depth"}   → {"keys":[[f,d,m]..]}
+  {"op":"save","vtf":{..},"minor","sheetver","asw"} → {"bytes":[..]} | {"err":code}
+  {"op":"read","bytes":[..]}                        → view (+ decoded pixels) | {"err":code}
+-/
+open Lean C15
+
+def nat (j : Json) (k : String) : Except String Nat := j.getObjValAs? Nat k
+def nats (j : Json) (k : String) : Except String (List Nat) := do Wire.natList (← j.getObjVal? k)
+def jn (n : Nat) : Json := Json.num (JsonNumber.fromNat n)
+def jl (l : List Nat) : Json := Wire.ofNatList l
+
+def frameOf (j : Json) : Except String FrameM := do
+  let w ← nat j "w"
+  let h ← nat j "h"
+  let d ← j.getObjVal? "data"
+  let data ← (match d with
+    | Json.null => pure none
+    | x => do pure (some (← Wire.natList x)))
+  pure ⟨w, h, data⟩
+
+def vtfOf (j : Json) : Except String Vtf := do
+  let frames ← (← (← j.getObjVal? "frames").getArr?).toList.mapM fun e => do
+    let k ← nats e "key"
+    let fr ← frameOf e
+    pure ((k.getD 0 0, k.getD 1 0, k.getD 2 0), fr)
+  let res ← (← (← j.getObjVal? "res").getArr?).toList.mapM fun e => do
+    pure (⟨← nats e "id", ← nat e "flags", ← e.getObjValAs? Bool "isbytes", ← nat e "ival",
+           ← nats e "data"⟩ : Res)
+  let sheet ← (← (← j.getObjVal? "sheet").getArr?).toList.mapM fun e => do
+    let frs ← (← (← e.getObjVal? "frames").getArr?).toList.mapM fun f => do
+      pure (⟨← nats f "dur", ← nats f "coords"⟩ : SheetFrame)
+    pure (⟨← nat e "num", ← e.getObjValAs? Bool "clamp", ← nats e "duration", frs⟩ : SheetSeq)
+  pure { width := ← nat j "width", height := ← nat j "height", depth := ← nat j "depth",
+         verMinor := ← nat j "minor", flags := ← nat j "flags", frameCount := ← nat j "frame_count",
+         firstFrame := ← nat j "first", refl := ← nats j "refl", bump := ← nats j "bump",
+         fmt := ← nat j "fmt", lowFmt := ← nat j "low_fmt", mipCount := ← nat j "mip_count",
+         low := ← frameOf (← j.getObjVal? "low"), frames, res, sheet }
+
+def resJson (r : Res) : Json :=
+  Json.mkObj [("id", jl r.id), ("flags", jn r.flags), ("isbytes", Json.bool r.isBytes),
+              ("ival", jn r.ival), ("data", jl r.data)]
+
+def sheetJson (s : SheetSeq) : Json :=
+  Json.mkObj [("num", jn s.num), ("clamp", Json.bool s.clamp), ("duration", jl s.duration),
+    ("frames", Json.arr (s.frames.map fun f =>
+      Json.mkObj [("dur", jl f.dur), ("coords", jl f.coords)]).toArray)]
+
+def errJson (e : Err) : Json := Json.mkObj [("err", jn e.code)]
+
+def pxJson (r : Except Err (List Nat)) : Json :=
+  match r with
+  | .ok l => jl l
+  | .error e => errJson e
+
+def handle (j : Json) : Except String Json := do
+  let op ← j.getObjValAs? String "op"
+  match op with
+  | "tables" =>
+    let fm (fs : List FmtInfo) := Json.arr (fs.map fun f =>
+      jl [f.ind, f.r, f.g, f.b, f.a, f.size, if f.compressed then 1 else 0]).toArray
+    let cm (cs : List Codec) := Json.arr (cs.map fun c =>
+      jl [c.ind, if c.hasLoad then 1 else 0, if c.hasSave then 1 else 0, c.load.length, c.save.length]).toArray
+    pure (Json.mkObj [("gen_formats", fm Gen.Vtf.formats), ("model_formats", fm C15.formats),
+                      ("gen_codecs", cm Gen.Vtf.codecs), ("model_codecs", cm C15.codecs),
+                      ("codecs_equal", Json.bool (Gen.Vtf.codecs == C15.codecs)),
+                      ("formats_equal", Json.bool (Gen.Vtf.formats == C15.formats))])
+  | "dec" =>
+    let c := codecOf (← nat j "fmt")
+    pure (Json.mkObj [("px", jl (loadImg c (← nats j "bytes")))])
+  | "enc" =>
+    let c := codecOf (← nat j "fmt")
+    pure (Json.mkObj [("bytes", jl (saveImg c (← nats j "px")))])
+  | "mips" =>
+    let w ← nat j "w"
+    let h ← nat j "h"
+    let lv := ctorLevels w h
+    let pr (l : List (Nat × Nat)) := Json.arr (l.map fun p => jl [p.1, p.2]).toArray
+    pure (Json.mkObj [("levels", pr lv), ("count", jn (ctorMipCount w h)),
+                      ("reader", pr ((List.range lv.length).map (readerDims w h)))])
+  | "scale" =>
+    match scaleDown (← nat j "filt") (← nat j "sw") (← nat j "sh") (← nat j "w") (← nat j "h")
+        (← nats j "src") with
+    | some d => pure (Json.mkObj [("dst", jl d)])
+    | none => pure (errJson .rescale)
+  | "index" =>
+    let x ← j.getObjValAs? Int "x"
+    let y ← j.getObjValAs? Int "y"
+    match frameIndex (← nat j "w") (← nat j "h") x y with
+    | some o => pure (Json.mkObj [("off", jn o)])
+    | none => pure (Json.mkObj [("off", Json.null)])
+  | "keys" =>
+    let ks := fileKeys (← nat j "mc") (← nat j "fc")
+      (depthSeq (← nat j "flags") (← nat j "minor") (← nat j "depth"))
+    pure (Json.mkObj [("keys", Json.arr (ks.map fun k => jl [k.1, k.2.1, k.2.2]).toArray)])
+  | "save" =>
+    let v ← vtfOf (← j.getObjVal? "vtf")
+    match saveFile v (← nat j "minor") (← nat j "sheetver") (← j.getObjValAs? Bool "asw") with
+    | .ok bs => pure (Json.mkObj [("bytes", jl bs)])
+    | .error e => pure (errJson e)
+  | "read" =>
+    let l ← nats j "bytes"
+    match readFile l with
+    | .error e => pure (errJson e)
+    | .ok v =>
+      let bs := l.toArray
+      let frames := Json.arr (v.frames.map fun (k, w, h, off) =>
+        Json.mkObj [("key", jl [k.1, k.2.1, k.2.2]), ("w", jn w), ("h", jn h), ("off", jn off),
+                    ("px", pxJson (decodeAt bs v.fmt w h off))]).toArray
+      let low := match v.lowOff with
+        | some o => Json.mkObj [("off", jn o), ("px", pxJson (decodeAt bs v.lowFmt v.lowW v.lowH o))]
+        | none => Json.null
+      pure (Json.mkObj [
+        ("minor", jn v.verMinor), ("header_size", jn v.headerSize), ("width", jn v.width),
+        ("height", jn v.height), ("flags", jn v.flags), ("frame_count", jn v.frameCount),
+        ("first", jn v.firstFrame), ("refl", jl v.refl), ("bump", jl v.bump), ("fmt", jn v.fmt),
+        ("mip_count", jn v.mipCount), ("low_fmt", jn v.lowFmt), ("low_w", jn v.lowW),
+        ("low_h", jn v.lowH), ("depth", jn v.depth),
+        ("res", Json.arr (v.res.map resJson).toArray),
+        ("sheet", Json.arr (v.sheet.map sheetJson).toArray),
+        ("low", low), ("frames", frames)])
+  | _ => throw s!"unknown op {op}"
+
+def main : IO Unit := Wire.main handle
